@@ -177,9 +177,23 @@ def lattice(thorough):
             sim.ri_mercurius.safe_mode = safe
         L.append(dict(name="mercurius/safe%d" % safe, fam="mercurius", terms=[(1, 2)], set=st, safe=safe))
 
+    for lname in ("infinity", "C4", "C5"):
+        def st(sim, lname=lname):
+            sim.integrator = "mercurius"
+            sim.ri_mercurius.L = lname
+            sim.ri_mercurius.r_crit_hill = 2.0
+        L.append(dict(name="mercurius/L=%s/rcrit2" % lname, fam="mercurius", terms=[(1, 2)], set=st, safe=1, nondefault=True))
+
     def stt(sim):
         sim.integrator = "trace"
     L.append(dict(name="trace", fam="trace", terms=[(1, 2)], set=stt))
+    for pm in (0, 2):
+        def st(sim, pm=pm):
+            sim.integrator = "trace"
+            sim.ri_trace.peri_mode = pm
+            sim.ri_trace.r_crit_hill = 2.0
+            sim.ri_trace.peri_crit_eta = 0.5
+        L.append(dict(name="trace/peri%d/rcrit2/eta0.5" % pm, fam="trace", terms=[(1, 2)], set=st, nondefault=True))
     return L
 
 
@@ -197,6 +211,7 @@ def advertised_envelope(cfg, sysd, dt, n_inner):
 
 
 # ----------------------------------------------------------------------------------------------- measuring
+WH_FAMILY = ("whfast", "saba", "mercurius", "trace")
 FIELD = (0.01, -0.02, 0.005)        # uniform extra acceleration (times n_inner^2): every particle gets x += g t^2/2, v += g t
 
 
@@ -389,7 +404,21 @@ def measure_ladder(rebound, sysd, cfg, ref_state, T, n_inner, maxpts=4, nmax=9, 
         if cfg.get("fam") == "eos" or cfg.get("fam") == "janus" or cfg.get("fam") == "leapfrog":
             pass
         t, st = run_case(rebound, sysd, cfg, dt, T, variant)
-        e = pos_err(st, ref_state, N)
+        if variant == "field" and cfg["fam"] in WH_FAMILY:
+            # Wisdom-Holman type integrators do not move the centre of mass under a net external force (known finding
+            # C01:wh-family-net-external-force); the uniform field must still leave the motion RELATIVE to the centre of mass exact
+            ms = [b["m"] for b in sysd["bodies"]]
+            M = sum(ms)
+            com_s = [sum(ms[i] * st[i][k] for i in range(N)) / M for k in range(3)]
+            com_r = [sum(ms[i] * ref_state[3 * i + k] for i in range(N)) / M for k in range(3)]
+            st = [[p_[k] - com_s[k] for k in range(3)] + list(p_[3:]) for p_ in st]
+            ref_rel = list(ref_state)
+            for i in range(N):
+                for k in range(3):
+                    ref_rel[3 * i + k] -= com_r[k]
+            e = pos_err(st, ref_rel, N)
+        else:
+            e = pos_err(st, ref_state, N)
         pts.append((abs(T) / max(1, int(round(abs(T) / abs(dt)))), e))
         if ERR_LO <= e <= ERR_HI:
             inwin += 1
@@ -435,14 +464,21 @@ def judge(cfg, sysd, pts, n_inner):
     return "ok", detail, worst_ratio
 
 
-def finding_key(cfg, sysd, sg, verdict):
+def finding_key(cfg, sysd, sg, verdict, variant=None):
     """stable key of the input class a failing case belongs to"""
     nm = cfg["name"]
+    if variant == "field-plateau" and cfg["fam"] in WH_FAMILY:
+        # heliocentric / barycentric slot-0 conventions: the planets feel the field, slot 0 does not: the error is independent of dt
+        # (signature checked by the caller: the errors of the whole ladder agree within a factor 1.5)
+        return "C01:wh-family-net-external-force"
     if cfg["fam"] == "trace" and sg < 0:
         return "F10:trace-negative-dt"
     if sysd["tp_type"] == 1 and ((cfg["fam"] == "whfast" and ("/modifiedkick/" in nm or "/lazy/" in nm)) or
                                  (cfg["fam"] == "saba" and int(nm.split("/")[1], 16) >= 0x100)):
         return "C01:jacobi-gravity-testparticle-type1"
+    if sysd["name"] == "tp0m" and ((cfg["fam"] == "whfast" and ("/modifiedkick/" in nm or "/lazy/" in nm)) or
+                                   (cfg["fam"] == "saba" and int(nm.split("/")[1], 16) >= 0x100)):
+        return "C01:jacobi-gravity-massive-type0-testparticles"
     if sysd["tp_type"] == 1 and cfg["fam"] == "eos" and "pmlf" in nm:
         return "C01:jerk-testparticle-pairs"
     return "%s:%s:%s" % (cfg["fam"], verdict, nm)
@@ -748,6 +784,7 @@ def run(c):
 
 
 def search(c, rebound, clib, d, syss, refs, focus):
+    c._focus = focus
     R = refs.get()
     ref = {}
     for sd, r in zip(syss, R):
@@ -792,6 +829,11 @@ def search(c, rebound, clib, d, syss, refs, focus):
                 v, det, ratio = judge(cfg, sd, pts, n_inner)
         except Exception as ex:
             v, det, ratio = "exception", {"exception": repr(ex)}, 0.0
+        kvar = variant
+        if variant == "field" and v in ("too-large", "low-order") and fam in WH_FAMILY:
+            es = [e_ for _, e_ in det.get("points", [])]
+            if len(es) >= 4 and max(es) <= 1.5 * min(es):
+                kvar = "field-plateau"
         nrun += 1
         hist[v] = hist.get(v, 0) + 1
         # ---- dimension bookkeeping
@@ -813,7 +855,7 @@ def search(c, rebound, clib, d, syss, refs, focus):
             dim("nondefault_integrator_options")
         if variant:
             dim(DIM_OF_VARIANT[variant])
-        if not (v in ("too-large", "low-order", "exception") and c.is_known(finding_key(cfg, sd, sg, v))):
+        if not (v in ("too-large", "low-order", "exception") and c.is_known(finding_key(cfg, sd, sg, v, kvar))):
             ratios.setdefault(fam, 0.0)
             ratios[fam] = max(ratios[fam], ratio)        # margin statistics exclude the cases that are known findings
         c.count((cfg["name"], nm, sg, variant), nontrivial=(v in ("ok", "too-large", "low-order")))
@@ -823,8 +865,8 @@ def search(c, rebound, clib, d, syss, refs, focus):
             what = "%s on system %s (T=%g%s): %s" % (cfg["name"], nm, T, (", variant " + variant) if variant else "",
                                                       {"too-large": "error outside the advertised envelope",
                                                        "low-order": "observed order below the advertised one", "exception": "exception"}[v])
-            vkey = finding_key(cfg, sd, sg, v)
-            if variant:
+            vkey = finding_key(cfg, sd, sg, v, kvar)
+            if variant and not c.is_known(vkey):
                 vkey += ":" + variant
             c.violation(vkey, what, dict(config=cfg["name"], system=sd["name"], bodies=sd["bodies"], G=sd["G"], T=T, variant=variant,
                                          N_active=sd["active"], testparticle_type=sd["tp_type"], detail=det,
@@ -845,7 +887,11 @@ def search(c, rebound, clib, d, syss, refs, focus):
         else:
             # quick: every member of the lattice on one plain, one particle-role and (every other configuration) one geometry system
             pl = [n for n in names if n not in ROLES and n not in GEOM]
-            use = [(c.rng.choice(pl), c.rng.choice([1, -1])), (c.rng.choice([n for n in names if n in ROLES]), c.rng.choice([1, -1]))]
+            # particle roles: round robin (offset by the seed) over the type-0 systems and over the type-1 systems, so that neighbouring
+            # members of a family (e.g. the SABA CL types) together see every role system
+            r0 = ["tp0", "single_active", "tp0m", "zeroactive"]
+            r1 = ["tp1", "tp1z"]
+            use = [(c.rng.choice(pl), c.rng.choice([1, -1])), (r0[(i + c.seed) % 4], c.rng.choice([1, -1])), (r1[(i + c.seed) % 2], c.rng.choice([1, -1]))]
             if c.rng.chance(0.5):
                 use.append((c.rng.choice([n for n in names if n in GEOM]), c.rng.choice([1, -1])))
         for nm, sg in use:
@@ -1118,6 +1164,138 @@ def extra_checks(c, rebound, clib, d, syss, ref):
             res["sei/slopes"] = [float("%.2f" % s) for s in sl]
             if any(s < 1.5 for s in sl) or errs[0] > 1e-2:
                 c.violation("sei:order", "SEI with mutual gravity: slopes %s errors %s" % (sl, errs), dict(errors=errs, y0=y0))
+    dimc = c.cov.setdefault("dimensions", {})
+
+    def dimx(name, k=1):
+        dimc[name] = dimc.get(name, 0) + k
+    # ---------------- adaptive integrators on the particle-role / geometry / softening systems and with non-default options
+    role_names = ["tp0", "tp0m", "tp1z", "zeroactive", "single_active", "offset", "flyby", "soft", "moving"]
+    if not c.thorough:
+        role_names = [role_names[c.rng.randint(0, len(role_names) - 1)] for _ in range(4)] + ["soft"]
+    for nm in dict.fromkeys(role_names):
+        sd = bysys[nm]
+        N = len(sd["bodies"])
+        for sg in ((1, -1) if c.thorough else (c.rng.choice([1, -1]),)):
+            T = sg * sd["T"]
+            for label, setup, bound in (
+                    ("ias15", lambda s_: None, 1e-9),
+                    ("ias15/min_dt=1e-3/mode0", lambda s_: (setattr(s_.ri_ias15, "min_dt", 1e-3), setattr(s_.ri_ias15, "adaptive_mode", 0)), 1e-9),
+                    ("ias15/eps=1e-6/mode3", lambda s_: (setattr(s_.ri_ias15, "epsilon", 1e-6), setattr(s_.ri_ias15, "adaptive_mode", 3)), 1e-7),
+                    ("bs/eps=1e-10", lambda s_: (setattr(s_, "integrator", "bs"), setattr(s_.ri_bs, "eps_rel", 1e-10), setattr(s_.ri_bs, "eps_abs", 1e-10)), 1e-7),
+                    ("bs/eps=1e-9/max_dt=0.05/min_dt=1e-6", lambda s_: (setattr(s_, "integrator", "bs"), setattr(s_.ri_bs, "eps_rel", 1e-9), setattr(s_.ri_bs, "eps_abs", 1e-9),
+                                                                       setattr(s_.ri_bs, "max_dt", 0.05), setattr(s_.ri_bs, "min_dt", 1e-6)), 1e-7)):
+                sim = make_sim(rebound, sd)
+                sim.integrator = "ias15"
+                setup(sim)
+                sim.dt = math.copysign(0.05, T)
+                # split into two integrate() calls with the default exact_finish_time
+                sim.integrate(0.4 * T)
+                sim.integrate(T)
+                e = pos_err(state_of(sim), ref[nm]["states"][repr(T)], N)
+                res.setdefault("adaptive_on_roles_worst", {})
+                res["adaptive_on_roles_worst"][label] = max(res["adaptive_on_roles_worst"].get(label, 0.0), float("%.2e" % e))
+                c.count(("adaptive-role", nm, sg, label))
+                for dn in sd.get("dims", []):
+                    dimx(dn)
+                if "=" in label:
+                    dimx("nondefault_integrator_options")
+                dimx("integrate_split_into_calls")
+                dimx("exact_finish_time_1")
+                if not e <= bound:
+                    c.violation("%s:role-system:%s" % (label.split("/")[0], nm), "%s on system %s (T=%g): error %.2e > %.0e" % (label, nm, T, e, bound),
+                                dict(system=sd, integrator=label, T=T, error=e))
+    # ---------------- integrator switched mid-run on one simulation object (with and without reset_integrator)
+    sd = bysys["two_planets"]
+    N = len(sd["bodies"])
+    pairs = [("whfast", "saba"), ("saba", "eos"), ("eos", "leapfrog"), ("leapfrog", "whfast"), ("mercurius", "whfast"), ("whfast", "mercurius"),
+             ("trace", "whfast"), ("whfast", "ias15"), ("ias15", "whfast"), ("janus", "leapfrog"), ("bs", "saba"), ("whfast", "trace")]
+    for a_, b_ in pairs:
+        for reset in (0, 1):
+            for safe in (1, 0):
+                T = sd["T"]
+                errs = []
+                for dt in (0.02, 0.01):
+                    sim = make_sim(rebound, sd)
+                    sim.integrator = a_
+                    if a_ == "whfast":
+                        sim.ri_whfast.safe_mode = safe
+                    if a_ == "saba":
+                        sim.ri_saba.safe_mode = safe
+                    n = int(round(T / dt))
+                    sim.dt = T / n
+                    if a_ == "bs":
+                        sim.ri_bs.eps_rel = 1e-11
+                        sim.ri_bs.eps_abs = 1e-11
+                    if a_ in ("ias15", "bs"):
+                        sim.integrate(0.5 * T)
+                    else:
+                        sim.steps(n // 2)
+                        sim.synchronize()
+                    if reset:
+                        sim.reset_integrator()
+                    sim.integrator = b_
+                    sim.dt = T / n
+                    if b_ in ("ias15", "bs"):
+                        sim.integrate(T)
+                    else:
+                        sim.steps(int(round((T - sim.t) / sim.dt)))
+                        sim.synchronize()
+                    if abs(sim.t - T) > 1e-9:
+                        errs.append(float("inf"))
+                    else:
+                        errs.append(pos_err(state_of(sim), ref["two_planets"]["states"][repr(T)], N))
+                c.count(("switch", a_, b_, reset, safe))
+                dimx("integrator_switch_midrun")
+                loword = any(x in ("leapfrog",) for x in (a_, b_))
+                bound = 100.0 * (1 + T) * (1e-3 if not loword else 1.0) * 0.02 ** 2 * (1 if "janus" not in (a_, b_) else 1)
+                res.setdefault("integrator_switch_errors", {})["%s->%s/reset%d/safe%d" % (a_, b_, reset, safe)] = [float("%.2e" % e) for e in errs]
+                if not (errs[0] <= bound and errs[1] <= max(errs[0] / 2.5, 1e-9)):
+                    c.violation("C01:trace-gravity-left-after-switch" if (a_ == "trace" and errs[1] > 1.0) else "switch:%s->%s:reset%d:safe%d" % (a_, b_, reset, safe),
+                                "integrator switched %s -> %s at T/2 (reset_integrator=%d, safe_mode=%d): errors %s for dt=0.02, 0.01 (bound %.1e, must shrink by > 2.5)" % (a_, b_, reset, safe, errs, bound),
+                                dict(system=sd, first=a_, second=b_, reset=reset, safe_mode=safe, errors=errs))
+    # ---------------- steps longer than an orbital period (WHFast's Kepler solver must cope; nothing to converge, only finiteness and size)
+    for integ in ("whfast", "saba", "mercurius"):
+        sim = make_sim(rebound, sd)
+        sim.integrator = integ
+        sim.dt = 7.0
+        sim.steps(3)
+        sim.synchronize()
+        e = pos_err(state_of(sim), [0.0] * (6 * N), N)
+        c.count(("long-dt", integ))
+        dimx("dt_longer_than_period")
+        if not e < 10.0:
+            c.violation("%s:dt-longer-than-period" % integ, "%s with dt = 7 (> inner period): particle at distance %r after 3 steps" % (integ, e), dict(integrator=integ, dt=7.0))
+    # ---------------- net external force on the centre of mass: uniform field, exact solution x += g t^2/2
+    sd = bysys["two_planets"]
+    N = len(sd["bodies"])
+    comres = {}
+    for integ in ("whfast", "saba", "mercurius", "trace", "leapfrog", "ias15"):
+        sim = make_sim(rebound, sd)
+        sim.integrator = integ
+        g = FIELD
+
+        def frc(simp, g=g):
+            s_ = simp.contents
+            for i in range(s_.N):
+                s_.particles[i].ax += g[0]
+                s_.particles[i].ay += g[1]
+                s_.particles[i].az += g[2]
+        sim.additional_forces = frc
+        sim.force_is_velocity_dependent = 0
+        sim.dt = 0.01
+        sim.steps(500)
+        sim.synchronize()
+        T_ = sim.t
+        ms = [b["m"] for b in sd["bodies"]]
+        com = [sum(ms[i] * getattr(sim.particles[i], k) for i in range(N)) / sum(ms) for k in "xyz"]
+        comres[integ] = max(abs(com[k] - 0.5 * g[k] * T_ * T_) for k in range(3))
+        c.count(("com-field", integ))
+        dimx("additional_force_uniform_field")
+        if comres[integ] > 1e-6:
+            key = "C01:wh-family-net-external-force" if integ in WH_FAMILY else "%s:uniform-field-com" % integ
+            c.violation(key, "%s: the centre of mass does not follow a uniform additional force (deviation %.3g after t=%g, expected shift %.3g)" %
+                        (integ, comres[integ], T_, 0.5 * max(abs(x) for x in g) * T_ * T_), dict(integrator=integ, field=g, t=T_, deviation=comres[integ]))
+    res["uniform_field_centre_of_mass_deviation"] = {k: float("%.2e" % v) for k, v in comres.items()}
     # ---------------- F18: second corrector: safe_mode 1 and 0 must agree to rounding
     sd = bysys["heavy3"]
     dif = {}
@@ -1179,6 +1357,16 @@ print(json.dumps(out))
     if bad:
         c.violation("F10:trace-negative-dt", "TRACE with dt<0: %s" % f10, dict(result=f10, system="m=1; m=1e-3 a=1 e=0.95 f=3; m=1e-3 a=3 e=0.1 f=1; t=-6, dt=-0.01"))
     c.cov["adaptive_and_other_integrators"] = res
+    applicable = ["N_active_lt_N_testparticle_type_0", "N_active_lt_N_testparticle_type_1", "massive_type0_testparticles", "massless_type1_testparticles",
+                  "zero_mass_active_body", "single_active_body", "G_not_1", "softening", "unequal_janus_scales", "safe_mode_0_three_integrate_calls",
+                  "keep_unsynchronized_with_explicit_synchronize", "nondefault_integrator_options", "dt_negative", "direction_reversal_between_calls",
+                  "integrate_split_into_calls", "exact_finish_time_1", "dt_longer_than_period", "additional_force_uniform_field", "callbacks_installed",
+                  "variational_particles_present", "integrator_switch_midrun", "restore_midrun_copy", "restore_midrun_archive",
+                  "moving_centre_of_mass", "com_offset_and_boost", "hyperbolic_member"]
+    for dn in applicable:
+        dimc.setdefault(dn, 0)
+        if dimc[dn] == 0 and not getattr(c, "_focus", None):
+            c.broken.append("dimension %s not covered by any evaluated case" % dn)
 
 
 if __name__ == "__main__":
